@@ -18,7 +18,18 @@ Inductive case :=
 | Parties (ids : list string) (impl : list (string * Z * Z))
 | SortP (peers old : list string) (impl_kind : N) (impl : list (string * Z))
 | Validate (old_t : Z) (sub key_peers store : list string) (impl : N)
-| Scenario (ecdsa : bool) (obs : list sobs).
+| Scenario (ecdsa : bool) (obs : list sobs)
+(* the REAL BTC executor's watchExecution on a transaction with n Taproot inputs, fed the results rs
+   ([None] = a nil value, [Some id] = the signature of input id's signing process - a real BIP-340
+   signature over that input's signature hash under the tweaked key); sent = transactions that
+   reached the (fake) node, valids[i] = the witness of input i verifies in btcd's script engine in
+   every one of them *)
+| BtcWatch (n : nat) (rs : list (option nat)) (sent : nat) (valids : list bool)
+(* the COMPLETE BTC executor (Executor.Execute: transaction assembly, one signature hash and one real
+   FROST signing process per input, the real tss.Coordinator, watchExecution, sendTx) on the three
+   fixture relayers, threshold 1, for a transfer that needs n of the bridge's UTXOs; per relayer:
+   transactions that reached its node and, per input, whether the witness verifies in all of them *)
+| BtcExec (n : nat) (relayers : list (nat * list bool)).
 
 Definition pk (s : string) : Z := party_key (bytes_of_string s).
 Definition pcode (hex : string) : Z := peer_code (unhex hex).
@@ -75,6 +86,13 @@ Fixpoint scn_agree (q : Z) (ecdsa : bool) (obs : list sobs) : bool :=
       && scn_agree q ecdsa r
   end.
 
+Fixpoint list_beq (A : Type) (eqb : A -> A -> bool) (a b : list A) : bool :=
+  match a, b with
+  | [], [] => true
+  | x :: a', y :: b' => eqb x y && list_beq A eqb a' b'
+  | _, _ => false
+  end.
+
 Definition agree (c : case) : bool :=
   match c with
   | Release coordinator cap _ s n count =>
@@ -91,6 +109,18 @@ Definition agree (c : case) : bool :=
   | Validate old_t sub key_peers store impl =>
       N.eqb (vres_code (validate_start_params old_t (map pcode sub) (map pcode key_peers) (map pcode store))) impl
   | Scenario ecdsa obs => scn_agree secp256k1_n ecdsa obs
+  | BtcWatch n rs sent valids =>
+      match btc_watch_tx n rs with
+      | WSent w => (sent =? 1)%nat && list_beq bool Bool.eqb valids (slots_valid_from 0 w)
+      | WWaiting => (sent =? 0)%nat
+      | WPanic => false
+      end
+  | BtcExec n relayers =>
+      (* benign transport: the threshold+1 = 2 selected relayers sign and send one fully signed
+         transaction each, the third one sends nothing *)
+      forallb (fun r => (fst r =? 0)%nat
+                        || ((fst r =? 1)%nat && list_beq bool Bool.eqb (snd r) (repeat true n))) relayers
+      && (List.length (filter (fun r => (fst r =? 1)%nat) relayers) =? 2)%nat
   end.
 
 Definition judge (c : case) : bool :=
@@ -108,6 +138,8 @@ Definition judge (c : case) : bool :=
   | Validate old_t sub key_peers store impl =>
       validate_ok old_t (map pcode sub) (map pcode key_peers) (map pcode store) (N.eqb impl 0)
   | Scenario ecdsa obs => scn_ok secp256k1_n ecdsa None obs
+  | BtcWatch n rs sent valids => btc_sent_ok n sent valids
+  | BtcExec n relayers => forallb (fun r => btc_sent_ok n (fst r) (snd r)) relayers
   end.
 
 Definition tag (c : case) : N :=
@@ -124,6 +156,8 @@ Definition tag (c : case) : N :=
       (if ecdsa then 10 else 20)
       + (if existsb (fun o => match o with OSign _ _ _ _ _ => true | _ => false end) obs then 1 else 0)
       + (if (1 <? List.length (filter (fun o => match o with OShares _ _ _ _ _ => true | _ => false end) obs))%nat then 2 else 0)
+  | BtcWatch n rs _ _ => match btc_watch_tx n rs with WSent _ => 31 | WWaiting => 30 | WPanic => 32 end
+  | BtcExec _ _ => 33
   end%N.
 
 Definition check_all := check_cases agree judge tag.
